@@ -1,6 +1,6 @@
 (* C09 - STATICS is complete and sorted; lookup by name is exact.  Theorems only. *)
 From Coq Require Import Lia Permutation.
-From Ructe Require Import Nom Utf8 Md5 Emit Tables Static StaticProofs MapProofs.
+From Ructe Require Import Nom Utf8 Md5 Emit Tables Static StaticProofs MapProofs Build ScriptNI WalkNames.
 Local Open Scope list_scope.
 
 Section C09.
@@ -36,6 +36,18 @@ Section C09.
     (forall id, In (id, n) (pubs ops) -> statics_get (run ops) n = Some (n, id)) /\
     (~ In n (map snd (pubs ops)) -> statics_get (run ops) n = None).
   Proof. exact (get_exact_lemma uni_esc uni_alnum mm header). Qed.
+
+  (* the directory-walking entry points are sequences of those additions: after add_files_as the
+     state is that of the earlier additions followed by one add_file_as per file below the directory
+     (at any depth, `walk`), after add_files by one add_file per file directly in it (`direct_files`;
+     sub-directories are not entered) -- so the theorems above, which hold for ANY sequence, cover
+     build scripts that use them *)
+  Theorem directory_walks_are_addition_sequences : forall ops s, st s = run ops ->
+    (forall fuel dir to es, S (dmax es) <= fuel ->
+       st (add_files_as uni_esc uni_alnum mm fuel s dir to es) = run (ops ++ ops_as (walk (S (dmax es)) dir to es))) /\
+    (forall dir es,
+       st (add_files uni_esc uni_alnum mm s dir es) = run (ops ++ ops_hashed dir (direct_files es))).
+  Proof. exact (walks_extend_a_run uni_esc uni_alnum mm header). Qed.
 End C09.
 
 (* the restriction to distinct url names is visible: two files with different identifiers and the
@@ -51,7 +63,20 @@ Example get_example :
   statics_get s (b "to/a.js") = Some (b "to/a.js", b "to_a_js") /\ statics_get s (b "to/a.j") = None.
 Proof. vm_compute. repeat split; reflexivity. Qed.
 
+(* a directory with a file, a sub-directory and a file in it: add_files takes the one direct file,
+   add_files_as all of them; STATICS lists the published names in byte order *)
+Example walks_example :
+  let es := [(b "z.css", File (b "x")); (b "m", Dir [(b "a.js", File [])])] in
+  let s0 := {| st := empty_statics []; sw := {| plan := []; out := []; reads := [] |} |} in
+  direct_files es = [(b "z.css", b "x")] /\
+  walk (S (dmax es)) (b "st") (b "v1") es = [(b "st/z.css", b "v1/z.css"); (b "st/m/a.js", b "v1/m/a.js")] /\
+  map fst (names_r (st (add_files_as (fun _ => false) (fun _ => false) MNone 5 s0 (b "st") (b "v1") es))) = [b "v1/m/a.js"; b "v1/z.css"] /\
+  map fst (names_r (st (add_files (fun _ => false) (fun _ => false) MNone s0 (b "st") es))) = [b "z-ndTkYSaM.css"].
+Proof. vm_compute. repeat split; reflexivity. Qed.
+
 Redirect "assumptions/C09.statics_sorted" Print Assumptions statics_sorted.
 Redirect "assumptions/C09.statics_complete" Print Assumptions statics_complete.
 Redirect "assumptions/C09.binary_search_correct" Print Assumptions binary_search_correct.
 Redirect "assumptions/C09.get_exact" Print Assumptions get_exact.
+Redirect "assumptions/C09.directory_walks_are_addition_sequences" Print Assumptions directory_walks_are_addition_sequences.
+Redirect "assumptions/C09.walks_example" Print Assumptions walks_example.
